@@ -117,14 +117,15 @@ Definition expected : list (string * string) := [
   ("src/copy.rs::into_owned_fd::unwrap#2", "L deregistration of a live socket");
   ("src/copy.rs::read::unreachable!#1", "G NullFn is only installed when have_rawfd is false, and then never called");
   ("src/copy.rs::write::unreachable!#1", "G NullFn is only installed when have_rawfd is false, and then never called");
-  ("src/copy.rs::write::unwrap#1", "G each select arm is enabled only when both halves of that kind are present (have_stream / have_frames)");
-  ("src/copy.rs::write::unwrap#2", "G each select arm is enabled only when both halves of that kind are present (have_stream / have_frames)");
-  ("src/copy.rs::write::unwrap#3", "G each select arm is enabled only when both halves of that kind are present (have_stream / have_frames)");
-  ("src/copy.rs::write::unwrap#4", "G each select arm is enabled only when both halves of that kind are present (have_stream / have_frames)");
-  ("src/copy.rs::write::index#1", "L len returned by read is at most the buffer length");
-  ("src/copy.rs::write::unwrap#5", "G each select arm is enabled only when both halves of that kind are present (have_stream / have_frames)");
-  ("src/copy.rs::write::unwrap#6", "G each select arm is enabled only when both halves of that kind are present (have_stream / have_frames)");
-  ("src/copy.rs::write::unwrap#7", "G each select arm is enabled only when both halves of that kind are present (have_stream / have_frames)");
+  ("src/copy.rs::shutdown::unreachable!#1", "G NullFn is only installed when have_rawfd is false, and then never called");
+  ("src/copy.rs::shutdown::unwrap#1", "G each select arm is enabled only when both halves of that kind are present (have_stream / have_frames)");
+  ("src/copy.rs::shutdown::unwrap#2", "G each select arm is enabled only when both halves of that kind are present (have_stream / have_frames)");
+  ("src/copy.rs::shutdown::unwrap#3", "G each select arm is enabled only when both halves of that kind are present (have_stream / have_frames)");
+  ("src/copy.rs::shutdown::unwrap#4", "G each select arm is enabled only when both halves of that kind are present (have_stream / have_frames)");
+  ("src/copy.rs::shutdown::index#1", "L len returned by read is at most the buffer length");
+  ("src/copy.rs::shutdown::unwrap#5", "G each select arm is enabled only when both halves of that kind are present (have_stream / have_frames)");
+  ("src/copy.rs::shutdown::unwrap#6", "G each select arm is enabled only when both halves of that kind are present (have_stream / have_frames)");
+  ("src/copy.rs::shutdown::unwrap#7", "G each select arm is enabled only when both halves of that kind are present (have_stream / have_frames)");
   ("src/copy.rs::copy_bidi::unwrap#1", "I process_request sets the connector name before copy_bidi");
   ("src/copy.rs::copy_bidi::unwrap#2", "R dup()/AsyncFd::new on a live socket: fails only when the process is out of file descriptors (see DESIGN.md, finding D32)");
   ("src/copy.rs::copy_bidi::unwrap#3", "R dup()/AsyncFd::new on a live socket: fails only when the process is out of file descriptors (see DESIGN.md, finding D32)");
